@@ -1090,6 +1090,12 @@ func one(r *vx.Run, in nsx.Input) {
 	}
 	if ast == nil {
 		r.Count("syntax-error")
+		// the harness's own run of the generated lexer + parser (its own error listener) found lexical or syntax errors:
+		// such a text is not a program; the compiler must refuse it, whatever is left after skipping the bad characters
+		if ob.Stage != "compile" && ob.Panic == "" {
+			r.FailP("C08", "text-with-lexical-or-syntax-errors-was-compiled", in, fmt.Sprintf("stage %s class %s postings %v", ob.Stage, ob.Class, ob.Postings), len(in.Script))
+			r.FailP("C12", "text-with-lexical-or-syntax-errors-was-compiled", in, fmt.Sprintf("stage %s class %s", ob.Stage, ob.Class), len(in.Script))
+		}
 		r.Case("", in, in.Script, false)
 		return
 	}
@@ -1182,6 +1188,26 @@ func boundaryFamily() []nsx.Input {
 				out = append(out, nsx.Input{Script: sc, Vars: map[string]string{}, Balances: bal, Meta: map[string]map[string]string{}, Note: "boundary:world-in-front-of-a-portioned-source-kept"})
 			}
 		}
+	}
+	// a valid program with one foreign character or stray token added: not a program any more
+	base := "send [USD 100] (\n  source = @world\n  destination = @alice\n)\n"
+	for _, junk := range []string{"[USD 100.]", "[USD 100€]", "[USD 100]!", "@alice!", "@alice;", "@alice #", "@world extra", "[USD 1_00]", "[USD 0x10]", "[USD 1e3]", "[usd 100]", "[USD 100]]", "@alice\x00", "@alice`", "[USD 100 ]~"} {
+		for _, sc := range []string{strings.Replace(base, "[USD 100]", junk, 1), strings.Replace(base, "@alice", junk, 1), base + junk + "\n"} {
+			if sc != base {
+				out = append(out, nsx.Input{Script: sc, Vars: map[string]string{}, Balances: map[string]map[string]string{}, Meta: map[string]map[string]string{}, Note: "boundary:foreign-character"})
+			}
+		}
+	}
+	// number literals as a script may spell them: leading zeros are decimal digits, nothing else is a number
+	for _, lit := range []string{"0", "00", "007", "0100", "08", "09", "010", "100", "0000000000000000000001", "18446744073709551616", "18446744073709551617", "36893488147419103233", "340282366920938463463374607431768211457"} {
+		sc := "send [USD " + lit + "] (\n  source = @world\n  destination = @alice\n)\n"
+		out = append(out, nsx.Input{Script: sc, Vars: map[string]string{}, Balances: map[string]map[string]string{}, Meta: map[string]map[string]string{}, Note: "boundary:number-literal"})
+		sc = "send [USD " + lit + "] (\n  source = @a\n  destination = @alice\n)\n"
+		out = append(out, nsx.Input{Script: sc, Vars: map[string]string{}, Balances: map[string]map[string]string{"a": {"USD": "5"}}, Meta: map[string]map[string]string{}, Note: "boundary:number-literal"})
+		sc = "set_tx_meta(\"n\", " + lit + " + 1)\nsend [USD 1] (\n  source = @world\n  destination = @alice\n)\n"
+		out = append(out, nsx.Input{Script: sc, Vars: map[string]string{}, Balances: map[string]map[string]string{}, Meta: map[string]map[string]string{}, Note: "boundary:number-literal"})
+		sc = "send [USD 10] (\n  source = @a allowing overdraft up to [USD " + lit + "] - [USD 3]\n  destination = @alice\n)\n"
+		out = append(out, nsx.Input{Script: sc, Vars: map[string]string{}, Balances: map[string]map[string]string{"a": {"USD": "5"}}, Meta: map[string]map[string]string{}, Note: "boundary:number-literal"})
 	}
 	// save between two takes: what a save keeps back is never handed out again, whatever the sign of the balance
 	for _, b := range []int64{-5, 0, 10} {
@@ -1323,7 +1349,7 @@ func main() {
 	fam := boundaryFamily()
 	for i, in := range fam {
 		// quick tier: a seeded third of the family; thorough: all of it
-		if r.Thorough() || g.Intn(3) == 0 || i%97 == 0 || strings.HasPrefix(in.Note, "boundary:variable-spelling") || in.Note == "boundary:save-then-credit" || in.Note == "boundary:world-in-front-of-a-portioned-source-kept" || in.Note == "boundary:capped-ordered-source-revisits-account" {
+		if r.Thorough() || g.Intn(3) == 0 || i%97 == 0 || strings.HasPrefix(in.Note, "boundary:variable-spelling") || in.Note == "boundary:save-then-credit" || in.Note == "boundary:world-in-front-of-a-portioned-source-kept" || in.Note == "boundary:capped-ordered-source-revisits-account" || in.Note == "boundary:foreign-character" || in.Note == "boundary:number-literal" {
 			one(r, in)
 			r.Count("boundary-family")
 		}
